@@ -200,6 +200,14 @@ def oracle (rest : List String) : String :=
       let bad := qs.filter fun q => stopRequested log && (startsAfterStop q log > 1 || !(exitFinal q log))
       if bad.isEmpty then "true" else s!"false more-than-one-task-started-after-stop-in-queues-{showNats bad}"
     | _, _ => "bad-op"
+  | "aftershutdown" :: args =>
+    -- once Shutdown() has returned no queue starts anything: not for late ticks, not when the hook that was
+    -- running returns
+    match (kv? "q" args).bind natList?, (kv? "ev" args).bind trace? with
+    | some qs, some log =>
+      let bad := qs.filter fun q => stopRequested log && startsAfterStop q log > 0
+      if bad.isEmpty then "true" else s!"false executions-started-after-Shutdown-returned-in-queues-{showNats bad}"
+    | _, _ => "bad-op"
   | "terminated" :: args =>
     -- after the stop request every worker, given its few remaining steps and its handler's return, has exited
     match (kv? "q" args).bind natList?, (kv? "ev" args).bind trace? with
